@@ -146,6 +146,17 @@ static void stage_family(Run &R) {
     R.space("C03 family {a.X.b, X\"q\", a.X\"q\", \"\\X\", X.X, X..X, .X, X., \"X\", ...} for " + std::to_string(cps.size()) + " code points (2-,3-,4-byte classes)", total);
 }
 
+static void stage_long(Run &R) {
+    size_t maxn = R.a.thorough ? 4200 : 1100; uint64_t total = 0;
+    static const char *UNITS[] = {"a", "\xD0\x96", "\xE2\x82\xAC", "\xF0\x90\x8D\x88"};
+    for (size_t n = 1; n <= maxn; n++) {
+        if ((int) (n % R.a.nworkers) != R.a.worker) continue;
+        for (const char *u : UNITS) for (const Bytes &b : gen::long_local_shapes(n, u)) { total++; if (!run_one(R, b)) return; }
+    }
+    R.sample("long", "29 shapes x units {a, U+0416, U+20AC, U+10348} x run lengths 1.." + std::to_string(maxn));
+    R.space("C03 length sweep: 29 shapes x 4 units (1-4 byte characters) x run lengths 1.." + std::to_string(maxn), total * R.a.nworkers);
+}
+
 static void stage_random(Run &R) {
     rc_run(R, "C03 generated 6531 local parts agree with UTF-8 + 5321 reference", 3.0, [&](Src &s) -> std::optional<Failure> {
         Bytes b = s.chance(1, 2) ? gen::local_valid(s, ref::M6531) : gen::local_any(s, ref::M6531);
@@ -183,6 +194,7 @@ int main(int argc, char **argv) {
     else if (R.a.stage == "family") stage_family(R);
     else if (R.a.stage == "random") stage_random(R);
     else if (R.a.stage == "corpus") stage_corpus(R);
+    else if (R.a.stage == "long") stage_long(R);
     else { fprintf(stderr, "unknown stage %s\n", R.a.stage.c_str()); return 2; }
     return finish(R);
 }
